@@ -377,6 +377,58 @@ fn brim<E: Ep>(run: &Arc<Run>, variant: Variant) {
     run.merge_classes(local);
 }
 
+/// Handshakes with a random source that draws a reserved token value (ffffffff, 00000000) one
+/// to three times in a row on either side before it behaves: connect, accept and the first data
+/// exchange are valid API calls and must neither panic nor emit anything malformed.
+fn unlucky_random<E: Ep>(run: &Arc<Run>, variant: Variant) {
+    for reserved in [[0xffu8; 4], [0u8; 4]] {
+        for k in 1..=3usize {
+            for side in 0..2usize {
+                run.add_evals(1);
+                let desc = json!({"family": "unlucky random source", "variant": variant.name(), "reserved_value": vp_core::hex(&reserved), "draws": k, "side": if side == 0 { "connecting" } else { "accepting" }});
+                let d2 = desc.clone();
+                let _g = run.watchdog.watch(Arc::new(move || d2.clone()));
+                let r = vp_core::catch(|| -> Result<(), (String, String)> {
+                    let mut p = Pair::<E>::new(variant);
+                    p.unlucky[side] = vec![reserved; k];
+                    let token_mode = if E::V7 { None } else { Some(variant == Variant::V6T) };
+                    p.with(0, |e, cb| e.connect(cb));
+                    p.settle();
+                    p.with(0, |e, cb| {
+                        let _ = e.send(cb, b"hi!", true);
+                        e.flush(cb)
+                    });
+                    p.settle();
+                    let v = [p.ep[0].view(p.now), p.ep[1].view(p.now)];
+                    if v[0].state != E::ONLINE || v[1].state != E::ONLINE {
+                        return Err(("handshake-fails-after-reserved-draws".into(), format!("states after the handshake: {} / {}", v[0].state_name, v[1].state_name)));
+                    }
+                    for s in 0..2 {
+                        for d in std::mem::take(&mut p.emitted[s]) {
+                            let r = E::read(&d, token_mode.map(|t| t && d != b"\x10\x00\x00\x01" as &[u8]));
+                            if let Err(e) = r.packet {
+                                // the 0.6 reader is told the token mode of the connection; the very
+                                // first Connect of a token-less client is the one datagram without
+                                return Err((format!("own-datagram-unreadable:{}", e), vp_core::hex_short(&d)));
+                            }
+                        }
+                    }
+                    Ok(())
+                });
+                match r {
+                    Ok(Ok(())) => run.class(&format!("unlucky-random:{}:ok", variant.name()), || desc.clone()),
+                    Ok(Err((sig, detail))) => {
+                        run.violation(&format!("{}:{}", variant.name(), sig), &detail, desc.clone());
+                    }
+                    Err(pn) => {
+                        run.violation(&format!("{}:{}", variant.name(), vp_core::panic_sig(&pn)), &format!("panic: {}", pn), desc.clone());
+                    }
+                }
+            }
+        }
+    }
+}
+
 fn many_small<E: Ep>(run: &Arc<Run>, variant: Variant, max_n: usize) {
     let base = Pair::<E>::online(variant);
     // (n, size, vital, lose): with `lose` the first transmission is lost and the chunks
@@ -478,11 +530,13 @@ fn main() {
                 sequences::<libtw2_net::connection7::Connection>(&run, v, depth);
                 many_small::<libtw2_net::connection7::Connection>(&run, v, 700);
                 brim::<libtw2_net::connection7::Connection>(&run, v);
+                unlucky_random::<libtw2_net::connection7::Connection>(&run, v);
             }
             _ => {
                 sequences::<libtw2_net::connection::Connection>(&run, v, depth);
                 many_small::<libtw2_net::connection::Connection>(&run, v, 700);
                 brim::<libtw2_net::connection::Connection>(&run, v);
+                unlucky_random::<libtw2_net::connection::Connection>(&run, v);
             }
         }
     }
@@ -507,7 +561,7 @@ fn main() {
     vp_net::record(&run, &outcomes);
     run.add_evals(outcomes.iter().map(|o| o.transitions).sum());
     run.finish(
-        &format!("all API call sequences of length <= {} over a {}-operation alphabet on an online endpoint (0.6+token, 0.6, 0.7), every emitted datagram read back with the library's own reader (no error, no warning, chunk count, chunks bit-identical); n = 1..700 small chunks without flush; two and three chunks adding up to every total 1376..1406 bytes queued without a flush, then flushed / ticked / resent; wire monitor on every datagram of the two-endpoint model", depth, ops().len()),
+        &format!("all API call sequences of length <= {} over a {}-operation alphabet on an online endpoint (0.6+token, 0.6, 0.7), every emitted datagram read back with the library's own reader (no error, no warning, chunk count, chunks bit-identical); n = 1..700 small chunks without flush; two and three chunks adding up to every total 1376..1406 bytes queued without a flush, then flushed / ticked / resent; handshakes with a random source that draws a reserved token value 1..3 times in a row on either side; wire monitor on every datagram of the two-endpoint model", depth, ops().len()),
         true,
     );
 }
